@@ -2,6 +2,6 @@
 # usage: build_harness.sh <name>   (compiles harness/<name>.cpp against the sanitizer build of /repo)
 set -e
 mkdir -p /verif/build/bin
-exec g++ -std=c++11 -O1 -g -fsanitize=address,undefined -fno-sanitize-recover=all -fno-omit-frame-pointer \
+exec g++ -std=c++11 -O1 -g -fsanitize=address,undefined -fno-sanitize-recover=all -fsanitize-recover=enum -fno-omit-frame-pointer \
   -DTINS_VERIF_HOOKS -I/repo/include -I/verif/build/asan/include \
   /verif/harness/$1.cpp -o /verif/build/bin/$1 /verif/build/asan/lib/libtins.a -lpcap -lssl -lcrypto -lpthread
